@@ -254,7 +254,7 @@ func (rb *replayBuilder) lit(v *SVal, t types.Type, st *State, depth int) string
 			term := sSel(sSel(h, bvLit(base, 64)), bvLit(idx, 64))
 			ev := &SVal{T: et, K: kindOf(et), Term: term}
 			val := rb.lit(ev, et, st, depth+1)
-			if val != rb.zeroExpr(et) {
+			if val != rb.zeroExpr(et) && idx.Cmp(need) < 0 {
 				rb.pre = append(rb.pre, fmt.Sprintf("%s[%s] = %s", bk, idx, val))
 			}
 		}
@@ -508,6 +508,49 @@ func (rb *replayBuilder) observe(out *[]string, path, expr string, v *SVal, t ty
 	}
 }
 
+func collectSizeTerms(g *Gen, v *SVal, t types.Type, st *State, depth int, out *[]string) {
+	if v == nil || depth > 3 {
+		return
+	}
+	defer func() {
+		if r := recover(); r != nil {
+			if _, isErr := r.(error); !isErr {
+				panic(r)
+			}
+		}
+	}()
+	switch kindOf(t) {
+	case KSlice:
+		*out = append(*out, v.Sub[1].Term, v.Sub[2].Term, v.Sub[3].Term)
+	case KString:
+		*out = append(*out, sApp("strlen", v.Term))
+	case KStruct:
+		s := structOf(t)
+		for i := 0; i < s.NumFields(); i++ {
+			collectSizeTerms(g, v.Sub[i], s.Field(i).Type(), st, depth+1, out)
+		}
+	case KPtr:
+		pt, ok := t.Underlying().(*types.Pointer)
+		if !ok || v.Prov != nil {
+			return
+		}
+		if s := structOf(pt.Elem()); s != nil && kindOf(pt.Elem()) == KStruct {
+			for i := 0; i < s.NumFields(); i++ {
+				ft := s.Field(i).Type()
+				switch kindOf(ft) {
+				case KSlice, KString, KStruct, KPtr:
+					fa := g.fieldAddr(v, pt.Elem(), i)
+					if kindOf(ft) == KStruct {
+						collectSizeTerms(g, g.load(st, fa, ft), ft, st, depth+1, out)
+					} else {
+						collectSizeTerms(g, g.load(st, fa, ft), ft, st, depth+1, out)
+					}
+				}
+			}
+		}
+	}
+}
+
 func panicKind(k string) bool {
 	switch k {
 	case "index", "slice", "div", "nilmap", "panic", "typeassert", "shift", "makeslice", "nil":
@@ -569,6 +612,36 @@ func (u *UnitResult) replay(o *OblResult, p *Program, base string) (rr ReplayRes
 		return
 	}
 	g := u.gen
+	// prefer a small model: bound every length/capacity/offset reachable from the parameters
+	var sizeTerms []string
+	for _, prm := range fn.Params {
+		collectSizeTerms(g, u.frame.vals[prm], prm.Type(), g.entry, 0, &sizeTerms)
+	}
+	if len(sizeTerms) > 0 {
+		for _, bound := range []int64{8, 64, 1024, 65536, 1 << 20} {
+			sess.send("(push 1)")
+			var cs []string
+			for _, t := range sizeTerms {
+				cs = append(cs, sApp("bvule", t, bv64(bound)))
+			}
+			sess.send("(assert " + sAnd(cs...) + ")")
+			sess.send("(check-sat)")
+			a2, err2 := sess.readSexp(60 * time.Second)
+			if err2 == nil && strings.TrimSpace(a2) == "sat" {
+				doc.Notes = append(doc.Notes, fmt.Sprintf("model minimised: all lengths, capacities and offsets <= %d", bound))
+				break
+			}
+			if err2 != nil {
+				doc.Notes = append(doc.Notes, "model minimisation aborted: "+err2.Error())
+				return
+			}
+			sess.send("(pop 1)")
+			if bound == 1<<20 {
+				sess.send("(check-sat)")
+				sess.readSexp(90 * time.Second)
+			}
+		}
+	}
 	rb := &replayBuilder{u: u, g: g, m: &modelSession{s: sess, cache: map[string]string{}}, fn: fn, pkg: fn.Pkg.Pkg,
 		imports: map[string]string{"fmt": "fmt", "testing": "testing"}, inputs: map[string]string{}, backing: map[string]string{}, objs: map[string]string{}}
 	entry := g.entry
@@ -654,7 +727,7 @@ func (u *UnitResult) replay(o *OblResult, p *Program, base string) (rr ReplayRes
 	ovFile := base + "_overlay.json"
 	os.WriteFile(ovFile, ovb, 0o644)
 	rel, _ := filepath.Rel(p.RepoDir, pkgDir)
-	cmdline := fmt.Sprintf("cd %s && GOFLAGS=-mod=mod GOPROXY=off go test -overlay %s -vet=off -count=1 -timeout 60s -run '^TestGovcReplay$' ./%s", p.RepoDir, ovFile, rel)
+	cmdline := fmt.Sprintf("cd %s && GOFLAGS=-mod=mod GOPROXY=off go test -overlay %s -vet=off -count=1 -v -timeout 60s -run '^TestGovcReplay$' ./%s", p.RepoDir, ovFile, rel)
 	doc.TestCmd = cmdline
 	cmd := exec.Command("bash", "-c", "ulimit -v 8000000; "+cmdline)
 	cmd.Env = replayEnv()
